@@ -14,7 +14,8 @@ Inductive aitem :=
 | IGroup (mn mx : string) (children : list string).         (* cardinal_spec *)
 Record arelspec := { rs_parent : string; rs_items : list aitem }.
 
-Inductive avalue := AvInt (text : string) | AvText (text : string).
+(* AvDouble: the DOUBLE token text and repr(float(text)), supplied by the parser side *)
+Inductive avalue := AvInt (text : string) | AvText (text : string) | AvDouble (text repr : string).
 Inductive adomain := ADiscrete (l : list avalue) | ARange (l : list (string * string)).
 Record aattrspec := { at_feature : string; at_name : string; at_domain : adomain;
                       at_default : avalue; at_null : avalue }.
@@ -58,6 +59,7 @@ Definition afm_value (v : aval) : result avalue :=
   match v with
   | VInt z => Ok (AvInt (z_to_string z))
   | VStr s => Ok (AvText s)
+  | VFloat r => Ok (AvDouble r r)          (* str(value) of a float is its repr *)
   | _ => Err OtherExn
   end.
 
@@ -141,7 +143,7 @@ Definition afm_render_item (i : aitem) : string :=
   | IGroup a b cs => ("[" ++ a ++ "," ++ b ++ "]{" ++ str_join " " cs ++ "}")%string
   end.
 
-Definition afm_render_value (v : avalue) : string := match v with AvInt t | AvText t => t end.
+Definition afm_render_value (v : avalue) : string := match v with AvInt t | AvText t | AvDouble t _ => t end.
 
 Definition afm_render (d : adoc) : string :=
   ("%Relationships" ++ String "010" ""
@@ -251,6 +253,7 @@ Definition afm_value_aval (v : avalue) : result aval :=
   match v with
   | AvInt t => match afm_to_int t with Err e => Err e | Ok z => Ok (VInt z) end
   | AvText t => Ok (VStr t)
+  | AvDouble _ r => Ok (VFloat r)
   end.
 
 Fixpoint afm_read_expr (prefix : string) (e : aexpr) : result node :=
